@@ -344,7 +344,9 @@ def run(ctx, focus):
     cases = nontrivial = cuts = 0
     seen = set()
     for i, (src, spec) in enumerate(specs):
-        d = common.write_ruleset(os.path.join(root, f"r{i % 50}"), spec)
+        # the first rulesets are written into two directories in turn (a rule name re-trained or edited between two loads in one
+        # process: nothing remembered from the previous load of that name may be used), the others into fifty
+        d = common.write_ruleset(os.path.join(root, f"r{i % 2}" if i < 24 else f"r{i % 50}"), spec)
         flags = spec.get('flags') or {'skip_brute': rng.random() < 0.3, 'skip_case': rng.random() < 0.3}
         try:
             r = corr_pq.run_case(d, flags, rng, ncuts=ncuts, all_cuts=(focus == 'C08' and not ctx.quick and src == 'exhaustive'),
